@@ -755,9 +755,12 @@ pub fn run_c16(_args: &Args, tier: &str, seed: u64) -> Report {
             rep.count("delimiter_tags_recognised", 1);
             match reg::lookup(reg::DELIMITERS, b) {
                 Some(e) if reg::names_entry(e, &format!("{d:?}")) && d as u32 == b => {}
+                // a byte missing from the harness's table is unjudged unless its symbol is the registry's name for another tag
+                None if d as u32 == b && reg::find_by_name(reg::DELIMITERS, &format!("{d:?}")).is_none() => rep.count("delimiter_tags_outside_the_harness_table_unjudged", 1),
                 other => rep.violation(format!("C16:delimiter:{b:#04x}"), format!("delimiter byte {b:#04x} decodes to {d:?} (as {:#04x}); registry: {other:?}", d as u32), none()),
             }
-        } else if reg::lookup(reg::DELIMITERS, b).is_some() {
+        } else if (0x01..=0x05).contains(&b) {
+            // the RFC 8010 delimiters must be recognised; the ones registered later may be
             rep.violation(format!("C16:delimiter:missing:{b:#04x}"), format!("delimiter tag {b:#04x} is not recognised"), none());
         }
         if let Some(v) = ValueTag::from_u8(b as u8) {
